@@ -126,7 +126,20 @@ fn proof_task(h: &mut Honest, bytes: &[u8], acc: &[String], compare: bool, pub_d
         }
         let mine = catch(|| r.parsed(&h.case, &proof));
         match (&h.parsed, mine) {
-            (Some(a), Ok(b)) => res["diff"] = json!(a.diff(&b)),
+            (Some(a), Ok(b)) => {
+                let mut d: Vec<String> = a.diff(&b).iter().map(|x| x.to_string()).collect();
+                // the component parsers (code under test) may ignore part of what was decoded: when they
+                // report equal contents although the decoded proof is not the original one (its canonical
+                // re-encoding differs from the honest bytes), the difference is bytes no parser looked at
+                if d.is_empty() {
+                    if let Ok(re) = catch(|| winterfell::Proof::to_bytes(&proof)) {
+                        if re != h.bytes {
+                            d.push("bytes_ignored_by_the_parsers".to_string());
+                        }
+                    }
+                }
+                res["diff"] = json!(d);
+            },
             (_, Err(p)) => res["diff"] = json!(["<panic while re-parsing: ".to_string() + &p + ">"]),
             _ => res["diff"] = json!(["<honest proof did not parse>"]),
         }
